@@ -130,14 +130,18 @@ def run_scenario(sc):
     name, prog, seed, nthr, ms, flags, excl = sc
     env = dict(os.environ, TSAN_OPTIONS="halt_on_error=0 exitcode=0 report_signal_unsafe=0 history_size=4", IV_EXCLUDE_POLL_METHOD=excl)
     t0 = time.time()
-    try:
-        r = subprocess.run([exe(prog), str(seed), str(nthr), str(ms), str(flags)], stdout=subprocess.PIPE, stderr=subprocess.PIPE,
-                           text=True, timeout=90 + 4 * ms / 1000, env=env, errors="replace")
-        out, err, rc = r.stdout, r.stderr, r.returncode
-    except subprocess.TimeoutExpired as e:
-        out = e.stdout if isinstance(e.stdout, str) else (e.stdout or b"").decode(errors="replace")
-        err = (e.stderr if isinstance(e.stderr, str) else (e.stderr or b"").decode(errors="replace")) + "\nTIMEOUT"
-        rc = -9
+    # a program that does not finish in time is run again with three times the allowance before it counts as "did not finish": on a
+    # machine that is busy with other checks a ThreadSanitizer build can be starved for a minute; a real hang shows up every time
+    for attempt in (1, 3, 9):
+        try:
+            r = subprocess.run([exe(prog), str(seed), str(nthr), str(ms), str(flags)], stdout=subprocess.PIPE, stderr=subprocess.PIPE,
+                               text=True, timeout=attempt * (90 + 4 * ms / 1000), env=env, errors="replace")
+            out, err, rc = r.stdout, r.stderr, r.returncode
+            break
+        except subprocess.TimeoutExpired as e:
+            out = e.stdout if isinstance(e.stdout, str) else (e.stdout or b"").decode(errors="replace")
+            err = (e.stderr if isinstance(e.stderr, str) else (e.stderr or b"").decode(errors="replace")) + "\nTIMEOUT"
+            rc = -9
     return dict(sc=sc, out=out, err=err, rc=rc, wall=time.time() - t0)
 
 
